@@ -174,12 +174,13 @@ def judge_deadline(ctx, name, cases):
     per = {}
     for case, o in zip(owner, obs):
         key = (case["text"], case.get("scorer"), case.get("depth"), case.get("tick"))
-        st = per.setdefault(key, {"full": len(o["full"]), "proper": 0, "expired": 0})
+        st = per.setdefault(key, {"full": len(o["full"]), "proper": 0, "expired": 0, "sampled": bool(case.get("sampled"))})
         if case["deadline"] and any(e["ev"] == "Chk" and e["expired"] for e in o["ev"]):
             st["expired"] += 1
             if 0 < len(o["out"]) < len(o["full"]):
                 st["proper"] += 1
-    hollow = [k for k, st in per.items() if st["full"] >= 2 and st["expired"] and not st["proper"]]
+    # (only where every expiry point was enumerated: a sample of the points of a long run may miss the few mid-stream ones)
+    hollow = [k for k, st in per.items() if st["full"] >= 2 and st["expired"] and not st["proper"] and not st["sampled"]]
     if hollow and not nrej and not ctx.violations:
         raise MachineryError("expiry points never cut a stream in the middle for %r: the enumeration does not reach the production loop" % (hollow[:3],))
     ctx.stage_counts[name] = {"cases": len(cases), "rejected": nrej,
@@ -197,10 +198,12 @@ def expiry_cases(texts, quick, rnd, scorers=("dummy",), depths=(10,)):
                 # count the clock reads of a run that CAN expire (a run with timeout=0 skips the reads of the deadline checks)
                 _, _, reads, _, _, _ = run_timed(text, 10 ** 9, sc, d)
                 pts = list(range(1, reads + 2))
+                sampled = False
                 if quick and len(pts) > 60:
                     pts = sorted(set(pts[:25] + pts[-10:] + rnd.sample(pts, 25)))
+                    sampled = True
                 for T in [0] + pts:
-                    cases.append({"text": text, "deadline": T, "scorer": sc, "depth": d})
+                    cases.append({"text": text, "deadline": T, "scorer": sc, "depth": d, "sampled": sampled})
     return cases
 
 
